@@ -40,6 +40,9 @@ SPECS_FULL = ([{'kind': 'numeric'}, {'kind': 'string'}, {'kind': 'nominal', 'lev
 SPECS_SMALL = [{'kind': 'numeric'}, {'kind': 'string'}, {'kind': 'nominal', 'levels': LEVELS[0]}, {'kind': 'date', 'datefmt': 'yyyy-MM-dd HH:mm'},
                {'kind': 'nominal', 'levels': LEVELS[2]}]
 SPECS_NS = [{'kind': 'numeric'}, {'kind': 'string'}]
+# nominal attributes of ONE file that are related: same level set in another order, equal level lists, sub-/superset, disjoint
+NOM_RELATED = [['a', 'b'], ['b', 'a'], ['a', 'b', 'c'], ['c', 'b', 'a'], ['a'], ['b', 'c']]
+SPECS_NOM = [{'kind': 'nominal', 'levels': l} for l in NOM_RELATED]
 CSV_FULL = ['a', '1', '2.5', '-3', 'a b', 'a,b', "it's", 'say "x"', 'back\\slash', '%', '?', '{x}', 'é', None]
 CSV_SMALL = ['a', '1', 'a,b', 'say "x"', "it's", 'a b', None]
 SVM_LABELS = [['1'], ['0'], ['-1'], ['2.5'], ['1', '3'], ['a']]
@@ -161,6 +164,13 @@ class C12(Check):
             for nrows, ncols, specs, alpha in self._arff_shapes(tier):
                 for cs in itertools.product(specs, repeat=ncols):
                     yield from self._arff_groups(sparse, [], cs, nrows, alpha)
+        # ---- ARFF related nominal attributes in one file (state shared between attributes of a file)
+        for sparse in (False, True):
+            for nrows, ncols, mid in ([(1, 2, False), (2, 2, False), (1, 3, False), (1, 3, True)] + ([] if q else [(2, 3, True), (2, 3, False)])):
+                for cs in itertools.product(SPECS_NOM, repeat=ncols - (1 if mid else 0)):
+                    for m in ([{'kind': 'numeric'}, {'kind': 'string'}] if mid else [None]):
+                        specs = cs if m is None else (cs[0], m) + tuple(cs[1:])
+                        yield from self._arff_groups(sparse, [], specs, nrows, 'small')
         # ---- ARFF column names (one awkward name at a time, then pairs)
         for sparse in (False, True):
             for name in NAMES:
@@ -428,6 +438,15 @@ class C12(Check):
                 cc = cclass(c['kind'], r[j])
                 if cc != 'plain': cells.add(cc if c['kind'] != 'numeric' or cc == 'missing' else 'num ' + cc)
         parts += sorted(cells) + sorted('level:' + l for l in levels - cells)
+        noms = [c['levels'] for c in d['cols'] if c['kind'] == 'nominal']
+        rel = set()
+        for i, a in enumerate(noms):
+            for b in noms[i + 1:]:
+                if a == b: rel.add('nominals with equal level lists')
+                elif set(a) == set(b): rel.add('nominals with the same level set in another order')
+                elif set(a) < set(b) or set(b) < set(a): rel.add('nominal level set is a subset of another')
+                elif set(a) & set(b): rel.add('nominals with overlapping level sets')
+        parts += sorted(rel)
         if len(d['rows']) == 0: parts.append('no rows')
         return ' + '.join(parts) or 'any table'
 
